@@ -174,7 +174,7 @@ class C10(Check):
             "sub-change had already been applied or remained to be applied; distinct by (composite, phase, deviation)")
     assumptions = ["fault model: a failing file-system command raises OSError and has no effect",
                    "one deviation (fault or stop) per execution; rollback itself runs fault-free",
-                   "stop() at the last boundary may either be reported (tree unchanged) or arrive too late (change complete, no error): both are all-or-nothing",
+                   "stop() during the very last notification (sent after the last boundary has been passed) arrives too late: the change must then be complete and no error raised; a stop at any earlier notification must be reported",
                    "snapshots compare path set, kinds and file bytes below the project root"]
     chunksize = 8
 
@@ -308,6 +308,15 @@ class C10(Check):
                     p.do(env.cs)
                 if phase == "redo":
                     p.history.undo()
+                previewed = phase == "pdo"
+                if previewed:
+                    # the change is previewed (as every front end does) before it is performed
+                    phase = "do"
+                    try:
+                        env.cs.get_description()
+                    except Exception as e:
+                        out("preview-raises:" + type(e).__name__)
+                        return
                 before = snap(env.root)
                 hist = env.hist()
                 stopper = Stopper(idx if dev == "stop" else 0)
@@ -323,7 +332,7 @@ class C10(Check):
                 fired = env.fs.fired if dev == "fault" else stopper.th.is_stopped()
                 after = snap(env.root)
                 applied = env.fs.n - (1 if dev == "fault" else 0)
-                feats = ["phase:" + phase, "dev:" + dev]
+                feats = ["phase:" + phase, "dev:" + dev] + (["previewed"] if previewed else [])
                 order = flat_kinds if phase != "undo" else flat_kinds[::-1]
                 neff = (idx - 1) if dev == "fault" else idx // 2
                 if ops:
@@ -339,7 +348,7 @@ class C10(Check):
                 detail = {"phase": phase, "deviation": dev, "index": idx, "of": ksteps,
                           "exception": repr(exc), "fs_log": [list(map(str, x)) for x in env.fs.log]}
                 res["n"] += 1
-                key = h8([case, phase, dev, idx])
+                key = h8([case, phase, dev, idx, previewed])
                 if fired and (applied > 0 or idx < ksteps):
                     res["nt"].append(key)
                 res["mech"]["%s-%s" % (phase, dev)] = res["mech"].get("%s-%s" % (phase, dev), 0) + 1
@@ -348,6 +357,9 @@ class C10(Check):
                     complete = {"do": T1, "undo": T0, "redo": T1}[phase]
                     if dev == "fault":
                         fail("fault-swallowed", feats, detail)
+                    elif fired and idx < ksteps:
+                        # only the very last notification (sent after the last boundary was passed) can be too late
+                        fail("stop-not-reported", feats, dict(detail, got=show(after)))
                     elif after != complete:
                         fail("partial-without-error", feats, dict(detail, expected=show(complete), got=show(after)))
                     else:
@@ -394,6 +406,10 @@ class C10(Check):
             execution("do", "fault", k, K_do)
         for j in range(1, J_do + 1):
             execution("do", "stop", j, J_do)
+        for k in range(1, K_do + 1):
+            execution("pdo", "fault", k, K_do)
+        for j in range(2, J_do, 2):
+            execution("pdo", "stop", j, J_do)
         for k in range(1, K_undo + 1):
             execution("undo", "fault", k, K_undo)
         for j in range(1, J_undo + 1):
